@@ -4,7 +4,7 @@ open Fpmodel
    input tokens (see harness/engines/c19.py:tokens):
      nodes_str:list bool, n_edges, acyclic, has_source, has_sink, origin(0 edge,1 node,2 other),
      wtype(0 int,1 float,2 other), elems:list (w(0 pos,1 zero,2 neg,3 missing) ign), conserving,
-     k:(0 z | 1 num den), cons:list (is_list items:list (kind in_graph)), cov:(num den),
+     k:(0 z | 1 num den), cons:list (is_list items:list (kind in_graph)), cov:(num den), cov_len:(0 | 1 num den), has_len_attr,
      starts:list bool, ends:list bool, ign:list (kind in_graph), search_enters *)
 let cls_of_int = function
   | 0 -> CstDAG | 1 -> CstDiGraph | 2 -> CNodeExpandedDiGraph | 3 -> CkFlowDecomp | 4 -> CMinFlowDecomp
@@ -28,12 +28,13 @@ let () = register "validate" (fun () ->
   let cons = next_list (fun () -> let l = next_bool () in let its = next_list next_item in
                                   { c_is_list = l; c_items = its }) in
   let cov = next_q () in
+  let cov_len = (match next () with 0 -> None | _ -> Some (next_q ())) in let has_len_attr = next_bool () in
   let starts = next_list next_bool in let ends = next_list next_bool in
   let ign = next_list next_item in
   let search_enters = next_bool () in
   let i = { nodes_str = nodes_str; n_edges = n_edges; acyclic = acyclic; has_source = has_source; has_sink = has_sink;
             origin = origin; wtype = wtype; elems = elems;
-            conserving = conserving; k = k; cons = cons; cov = cov; starts = starts; ends = ends; ign = ign;
+            conserving = conserving; k = k; cons = cons; cov = cov; cov_len = cov_len; has_len_attr = has_len_attr; starts = starts; ends = ends; ign = ign;
             search_enters = search_enters } in
   let o = (match validate c i with
     | Accept -> "ACCEPT" | RaiseValueError -> "ValueError" | RaiseOther e -> s_exn e | AcceptsButUnsolved -> "UNSOLVED") in
